@@ -40,11 +40,11 @@ var opsBulkAppend = map[string][2]string{"GetBlockHeaders": {sigRaceHeaders, sig
 var bulkOps = map[string]bool{"GetBlockHeaders": true, "GetBlockHeadersByHeights": true, "GetTransactions": true, "GetBlocksBetweenHeight": true, "rpcHighestCommon": true, "rpcBlocksFromID": true, "GetLastNBlocks": true}
 
 type ReaderW struct {
-	Ops   map[string]int `json:"ops"`   // weights by operation name
-	Yield int            `json:"yield"` // 0 none, 1 Gosched, 2 Gosched/µs sleeps
-	Bulk  int            `json:"bulk"`  // largest number of items in one bulk lookup
-	Fixed bool           `json:"fixed,omitempty"`  // every bulk lookup asks for exactly Bulk stable items and nothing else
-	Newest bool          `json:"newest,omitempty"` // rpcBlocksFromID asks for the successors of the newest block the writer built
+	Ops    map[string]int `json:"ops"`              // weights by operation name
+	Yield  int            `json:"yield"`            // 0 none, 1 Gosched, 2 Gosched/µs sleeps
+	Bulk   int            `json:"bulk"`             // largest number of items in one bulk lookup
+	Fixed  bool           `json:"fixed,omitempty"`  // every bulk lookup asks for exactly Bulk stable items and nothing else
+	Newest bool           `json:"newest,omitempty"` // rpcBlocksFromID asks for the successors of the newest block the writer built
 }
 
 type ChainW struct {
@@ -56,9 +56,9 @@ type ChainW struct {
 	MaxDepth    int       `json:"max_depth"` // most consecutive removals
 	MaxChurn    int       `json:"max_churn"` // the tip stays <= Stable+margin+MaxChurn
 	WriterYield int       `json:"writer_yield"`
-	Listen      int       `json:"listen"` // >0: started p2p connection on 127.0.0.<Listen>
-	KeepCached  bool      `json:"keep_cached"`   // writer never empties the block cache (known nil-tip window avoided)
-	StableFrom  bool      `json:"stable_from"`   // GetBlocksFromID only with ids of stable blocks (known range underflow avoided)
+	Listen      int       `json:"listen"`      // >0: started p2p connection on 127.0.0.<Listen>
+	KeepCached  bool      `json:"keep_cached"` // writer never empties the block cache (known nil-tip window avoided)
+	StableFrom  bool      `json:"stable_from"` // GetBlocksFromID only with ids of stable blocks (known range underflow avoided)
 	MinReader   int       `json:"min_reader_ops"`
 	Readers     []ReaderW `json:"readers"`
 }
@@ -79,22 +79,22 @@ type txinfo struct {
 }
 
 type chainEnv struct {
-	r        *run
-	w        *ChainW
-	n        *node.Node
-	da       *blockchain.DataAccess
-	syncer   *csync.Syncer
-	stable   []*binfo  // index = height, 0..Stable
-	stableTx []*txinfo // all transactions of stable blocks
-	registry sync.Map  // string(id) -> *binfo: every block the writer built (registered before it is processed)
-	txReg    sync.Map  // string(txid) -> *txinfo
-	recent   [64]atomic.Pointer[binfo]
-	recentN  atomic.Int64
+	r          *run
+	w          *ChainW
+	n          *node.Node
+	da         *blockchain.DataAccess
+	syncer     *csync.Syncer
+	stable     []*binfo  // index = height, 0..Stable
+	stableTx   []*txinfo // all transactions of stable blocks
+	registry   sync.Map  // string(id) -> *binfo: every block the writer built (registered before it is processed)
+	txReg      sync.Map  // string(txid) -> *txinfo
+	recent     [64]atomic.Pointer[binfo]
+	recentN    atomic.Int64
 	writerDone atomic.Bool
 	refill     atomic.Int64 // odd while the writer executes a removal that empties the block cache (engine reloads it)
-	underflow  atomic.Bool // the known range underflow was hit once: stop provoking it (each hit asks for 32 GiB)
-	floor    uint32 // the writer never removes a block at height <= floor
-	nonce    uint64
+	underflow  atomic.Bool  // the known range underflow was hit once: stop provoking it (each hit asks for 32 GiB)
+	floor      uint32       // the writer never removes a block at height <= floor
+	nonce      uint64
 }
 
 func newBinfo(b *blockchain.Block) *binfo {
@@ -480,7 +480,7 @@ func (e *chainEnv) checkBlock(what string, b *blockchain.Block, strict bool) boo
 	case !bytes.Equal(crypto.Hash(b.Header.Encode()), b.Header.ID):
 		problem = fmt.Sprintf("ID of block at height %d is not the hash of its header", b.Header.Height)
 	case !bytes.Equal(b.Encode(), bi.enc):
-		problem = fmt.Sprintf("block at height %d differs from the committed block with the same ID (transactions %d vs %d)", b.Header.Height, len(b.Transactions), len(bi.txIDs))
+		problem = fmt.Sprintf("block at height %d differs from the committed block with the same ID (transactions %d, committed %d; assets %d, every block the writer builds has 1)", b.Header.Height, len(b.Transactions), len(bi.txIDs), len(b.Assets))
 	default:
 		ids := make([][]byte, len(b.Transactions))
 		for i, tx := range b.Transactions {
